@@ -67,12 +67,13 @@ CompileFails == IF Case.compile.ok THEN {} ELSE {"Compiles"}
 \* C06: every collection the query uses brings the link library the experiment documents for it
 \* (ATLAS: the rendered package's LINK_LIBRARIES), and - miniAOD - is read through a token that
 \* was declared and initialised with exactly its bank's tag; no token for anything else
-UsedColls == {p[1] : p \in CollNodes(Q)}
-LibFails ==
-  IF Case.backend = "atlas" /\ Case.translate.outcome = "ok"
-     /\ \E cl \in UsedColls : LibOf("atlas", cl) # "" /\ ~(Case.declv = "replace_A" /\ cl = "A")
-                              /\ LibOf("atlas", cl) \notin {Case.translate.libs[i] : i \in DOMAIN Case.translate.libs}
-  THEN {"LibrariesRequested"} ELSE {}
+\* by need: a collection the job really retrieves (its container type shows up in a logged request)
+LibsOK(requests) ==
+  \A i \in DOMAIN requests :
+     \A cl \in DOMAIN CollClass :
+        (Sig.collType[cl] = requests[i][1] /\ LibOf("atlas", cl) # "" /\ ~(Case.declv = "replace_A" /\ cl = "A"))
+        => LibOf("atlas", cl) \in {Case.translate.libs[j] : j \in DOMAIN Case.translate.libs}
+LibFails == {}
 TokenFails(b) ==
   IF Case.backend = "cms_miniaod" /\ b.fault = "none"
      /\ {<<b.consumes[i][1], b.consumes[i][2]>> : i \in DOMAIN b.consumes} # Uses(Q, Sig)
@@ -104,6 +105,7 @@ EventFails(o) ==
               ELSE IF RowsClose(o.rows, want) THEN {} ELSE {"RowsMatch"}))
        \cup (IF \E i \in DOMAIN o.requests : <<o.requests[i][1], o.requests[i][2]>> \notin uses
              THEN {"RequestsAdmissible"} ELSE {})
+       \cup (IF Case.backend = "atlas" /\ ~LibsOK(o.requests) THEN {"LibrariesRequested"} ELSE {})
 Skipped(o) == IsUndef(Rows(Q, Events[o.e]))
 
 \* C05, reference-free form.  By construction of the harness run i (i <= number of events)
